@@ -112,6 +112,7 @@ cJSON *create_routed_message(const struct peer *p, const char *path, enum type w
 	} else {
 		cJSON *params = cJSON_CreateObject();
 		if (unlikely(params == NULL)) {
+			cJSON_Delete(value_copy);
 			goto error;
 		}
 		cJSON_AddItemToObject(message, "params", params);
@@ -282,8 +283,8 @@ int handle_routing_response(const cJSON *json_rpc, const cJSON *response, const 
 					format_and_send_response(request->requesting_peer, result_response);
 					cJSON_Delete(result_response);
 				} else {
+					/* create_result_response() already released response_copy. */
 					log_peer_err(request->requesting_peer, "Could not create %s response!\n", result_type);
-					cJSON_Delete(response_copy);
 				}
 			} else {
 				log_peer_err(p, "Could not copy response!\n");
